@@ -544,6 +544,85 @@ fn area_queue(cx: &mut Cx, r: &mut Rng) {
     });
 }
 
+
+/// Calls made from a thread-local's destructor at THREAD EXIT: an application may well record a metric when a per-thread
+/// object goes away. Whatever per-thread state the library keeps is possibly gone by then (destructors run in reverse
+/// order of initialisation) - the call must still work or fail with an error; a panic there aborts the process.
+fn area_tls(cx: &mut Cx, r: &mut Rng) {
+    use std::cell::RefCell;
+    cx.rep.eval();
+    let variant = r.below(8);
+    cx.rep.distinct(&format!("tls|{}", variant));
+    type Action = Box<dyn Fn() + Send>;
+    thread_local! {
+        static GUARD: RefCell<Option<ExitGuard>> = const { RefCell::new(None) };
+    }
+    struct ExitGuard(Action);
+    impl Drop for ExitGuard {
+        fn drop(&mut self) {
+            (self.0)();
+        }
+    }
+    let make: Box<dyn Fn() -> Action + Send> = match variant % 4 {
+        0 => Box::new(|| {
+            let q = QueuingMetricSink::with_capacity(cadence::NopMetricSink, 1);
+            Box::new(move || {
+                // (a bounded queue that is full hands the string back to the caller: both outcomes are exercised)
+                for k in 0..4 {
+                    let _ = q.emit(&format!("tls.exit.q{}:1|c", k));
+                }
+                let _ = q.flush();
+            })
+        }),
+        1 => Box::new(|| {
+            let c = StatsdClient::from_sink("tls", QueuingMetricSink::from(cadence::NopMetricSink));
+            Box::new(move || {
+                let _ = c.count("exit", 1i64);
+                c.gauge_with_tags("exit", 2u64).with_tag("a", "b").send();
+                let _ = c.time("exit", std::time::Duration::new(u64::MAX, 0));
+                let _ = c.flush();
+            })
+        }),
+        2 => Box::new(|| {
+            let (_rx, sink) = cadence::BufferedSpyMetricSink::with_capacity(None, Some(32));
+            let c = StatsdClient::from_sink("tls", sink);
+            Box::new(move || {
+                for k in 0..6 {
+                    let _ = c.count("exit", k as i64);
+                }
+                let _ = c.flush();
+            })
+        }),
+        _ => Box::new(|| {
+            let c = StatsdClient::builder("tls", cadence::NopMetricSink).with_tag("t", "v").with_error_handler(|_e| {}).build();
+            Box::new(move || {
+                c.histogram_with_tags("exit", vec![1u64, 2]).send();
+                c.set_with_tags("exit", 1i64).with_timestamp(1).send();
+            })
+        }),
+    };
+    let guard_first = variant < 4;
+    cx.call("tls", "metrics recorded by a thread-local destructor at thread exit", || jobj! {"variant" => variant, "guard_initialised_before_first_call" => guard_first}, move || {
+        let t = std::thread::spawn(move || {
+            let action = make();
+            let warm = make();
+            if guard_first {
+                // the application's per-thread object exists BEFORE the thread's first call into the library ...
+                GUARD.with(|g| *g.borrow_mut() = Some(ExitGuard(action)));
+                warm();
+            } else {
+                warm();
+                GUARD.with(|g| *g.borrow_mut() = Some(ExitGuard(action)));
+            }
+            // ... and is destroyed when the thread ends, after the library's own per-thread state (if it has any)
+        });
+        if t.join().is_err() {
+            panic!("the thread whose thread-local destructor records metrics at exit panicked");
+        }
+    });
+    cx.rep.obs("threads_whose_thread_local_destructor_used_the_library_at_exit", 1);
+}
+
 fn area_misc(cx: &mut Cx, r: &mut Rng) {
     cx.rep.eval();
     cx.rep.distinct(&format!("misc|{}", r.below(50)));
@@ -646,6 +725,7 @@ fn main() {
             "sinks" => area_sinks(&mut cx, &mut r),
             "queue" => area_queue(&mut cx, &mut r),
             "misc" => area_misc(&mut cx, &mut r),
+            "tls" => area_tls(&mut cx, &mut r),
             a => {
                 eprintln!("unknown area {}", a);
                 std::process::exit(2);
